@@ -41,6 +41,10 @@ def exprs_1(leaves):
             yield f'{c}({l})'
     for l in leaves:
         yield f'({l})'
+    # casts with further arguments, triple-quoted and prefixed strings, member names
+    yield from ['int("10", 16)', 'int("10", base=8)', "int('0x1F', 16)", "int('7', 10)", 'int(1.5, 10)', 'float("1.5", 2)', 'str(7, "x")',
+                '"""a"""', '"""a""" + "b"', "'''a''' + '''b'''", '"b" + """a"""', "r'a' + 'b'", "'a' + f'b'",
+                'int()', 'float()', 'str()']
     for op in BIN_OPS:
         for a in leaves:
             for b in leaves:
@@ -156,6 +160,8 @@ def make_ns():
 def decode(v):
     """Evaluator values: int, float, or a *quoted* string."""
     if isinstance(v, str):
+        if len(v) >= 6 and v[:3] in ('"""', "'''") and v[-3:] == v[:3]:
+            return v[3:-3]
         if len(v) >= 2 and v[0] in '"\'' and v[-1] in '"\'':
             return v[1:-1]
         return ('undecodable', v)
